@@ -6,13 +6,20 @@ cd "$(dirname "$0")"
 export GOFLAGS=-mod=mod GOPROXY=off GOSUMDB=off GOTOOLCHAIN=local
 MODFLAG=""
 if [ -n "$VERIF_REPO" ]; then
-  mkdir -p work
-  sed "s#=> /repo#=> $VERIF_REPO#" go.mod > work/alt.mod
-  cp go.sum work/alt.sum
-  MODFLAG="-modfile=work/alt.mod"
+  # sensitivity suite only: build against a scratch copy of the repository
+  ALT="${VERIF_ROOT:-$(pwd)/work}"
+  mkdir -p "$ALT"
+  sed "s#=> /repo#=> $VERIF_REPO#" go.mod > "$ALT/alt.mod"
+  cp go.sum "$ALT/alt.sum"
+  MODFLAG="-modfile=$ALT/alt.mod"
 fi
-mkdir -p bin
-go build $MODFLAG -tags verif -o bin/verif ./cmd/verif
+ROOT="${VERIF_ROOT:-$(pwd)}"
+mkdir -p "$ROOT/bin"
+# build to a private name and rename, so that a check running concurrently never
+# executes a half-written binary
+go build $MODFLAG -tags verif -o "$ROOT/bin/verif.$$" ./cmd/verif
+mv -f "$ROOT/bin/verif.$$" "$ROOT/bin/verif"
 if [ "$1" = race ]; then
-  go build $MODFLAG -race -tags verif -o bin/verif-race ./cmd/verif
+  go build $MODFLAG -race -tags verif -o "$ROOT/bin/verif-race.$$" ./cmd/verif
+  mv -f "$ROOT/bin/verif-race.$$" "$ROOT/bin/verif-race"
 fi
